@@ -334,6 +334,9 @@ impl ThreadAllocInfo {
 
     /// Sets 0 to all values.
     pub fn clear(&mut self) {
+        #[cfg(divan_verif)]
+        crate::__verif::alloc::notify_clear();
+
         *self = Self::new();
     }
 
